@@ -255,6 +255,15 @@ def check(res):
             embed = set(_atom(c) for c in _conj(n.test))
     if embed is None:
         raise AnalysisError("anchor vanished: embedded-leaf branch of _Tree.__getstate__")
+    res.extra["py_embed_atoms"] = sorted(embed)
+    if not any(a.startswith("other:") for a in embed):
+        res.findings.add(dict(
+            rule="PY-EMBEDDED-LEAF", function="_Tree.__getstate__", file=REL, line=gs.lineno,
+            construct="embedded form not restricted to the root",
+            detail="the single leaf is written inline under (%s) - conditions an interior node "
+                   "with one child satisfies too; there the leaf is also referenced by its "
+                   "predecessor's _next, gets an oid when that predecessor is written later in "
+                   "the same commit and is stored twice" % ", ".join(sorted(embed)), path=[]))
     for mname, dele in (("_set", "_set"), ("_del", "_del")):
         fn = mem.get(mname)
         if not isinstance(fn, ast.FunctionDef):
